@@ -7,7 +7,7 @@ Type descriptors: 'str' 'int' 'float' 'bool' 'bytes' 'datetime' 'date' 'time' 't
 | ['opt', t] | ['list', t] | ['tupv', t] | ['tup', [t...]] | ['dict', k, t] (k any scalar)
 | ['ddict', k, t] defaultdict | ['odict', k, t] OrderedDict | ['set'|'fset'|'deque'|'seq'|'mseq'|'coll', t]
 | ['td', total, [[key, t, 'req'|'opt'|None]...]] TypedDict | ['nt', [[field, t, has_default]...]] NamedTuple
-| ['dc', [[field, t]...]] nested dataclass | ['union', [t...]].
+| ['dc', [[field, t]...]] nested dataclass | ['union', [t...]] | ['ann', t] Annotated[t, ...].
 A JSON value {'__pairs__': [[k, v]...]} stands for a dict with arbitrarily typed keys.
 Outcomes are encoded exactly like CoerceModel.show_res (see enc()); 'ok_sorted' is the same with dict
 items and set elements sorted (TypedDict key order is not part of the property)."""
@@ -47,10 +47,14 @@ _gen = [0]
 _types = {}
 
 
+_eng = ['v0']     # generated classes (TypedDict / NamedTuple / nested dataclass) are never shared between
+                  # engines: the library caches one loader per nested class (state leak = C07's business)
+
+
 def mk_type(d):
     if isinstance(d, str):
         return SCALARS[d]
-    key = repr(d)
+    key = (_eng[0], repr(d))
     if key in _types:
         return _types[key]
     _types[key] = t = _mk_type(d)
@@ -79,6 +83,8 @@ def _mk_type(d):
         return gen[mk_type(d[1])]
     if k == 'union':
         return typing.Union[tuple(mk_type(x) for x in d[1])]
+    if k == 'ann':
+        return typing.Annotated[mk_type(d[1]), 'c04-metadata']
     _gen[0] += 1
     if k == 'td':
         ann = {}
@@ -91,12 +97,7 @@ def _mk_type(d):
             ann[name] = tp
         return typing.TypedDict('TD%d' % _gen[0], ann, total=bool(d[1]))
     if k == 'nt':
-        ns = {'__annotations__': {name: mk_type(t) for name, t, _ in d[1]}}
-        for name, _, has_default in d[1]:
-            if has_default:
-                ns[name] = None
-        return typing.NamedTupleMeta('NT%d' % _gen[0], (typing.NamedTuple,), ns) if False else \
-            _named_tuple('NT%d' % _gen[0], d[1])
+        return _named_tuple('NT%d' % _gen[0], d[1])
     if k == 'dc':
         return dataclasses.make_dataclass('DC%d' % _gen[0], [(name, mk_type(t)) for name, t in d[1]])
     raise ValueError(d)
@@ -198,6 +199,7 @@ def get_cls(tyd, eng):
     if key in _cls:
         return _cls[key]
     _n[0] += 1
+    _eng[0] = eng
     tp = mk_type(tyd)
     if eng == 'env':
         from dataclass_wizard import EnvWizard
